@@ -7,6 +7,7 @@ mod lg;
 mod lz;
 mod nm;
 mod sr;
+mod ty;
 mod st;
 mod util;
 
@@ -27,6 +28,8 @@ fn main() {
         "lc-probe" => lc::probe(&args),
         "nm-record" => nm::record(&args),
         "sr-record" => sr::record(&args),
+        "ty-replay" => ty::replay(&args),
+        "ty-record" => ty::record(&args),
         "f32-sweep" => nm::f32_sweep(&args),
         "dom-replay" => dom::replay(&args),
         "nest" => nest(&args),
